@@ -210,7 +210,7 @@ class kLeastAbsErrors(pathmodel.AbstractPathModelDAG):
         self.solution_weights_superset = list(solution_weights_superset) if solution_weights_superset is not None else None      # (a copy, read again in get_solution())
         # (the given weights are handed out as they are: they must be weights of the requested type, i.e. non-negative and, for int, whole numbers)
         for given_weight in (self.solution_weights_superset or []):
-            if not (given_weight >= 0) or (weight_type == int and float(given_weight) != int(given_weight)):
+            if not (given_weight >= 0) or given_weight == float('inf') or (weight_type == int and float(given_weight) != int(given_weight)):      # (NaN fails the first test)
                 utils.logger.error(f"{__name__}: solution_weights_superset must contain non-negative weights of type {weight_type}, not {given_weight}")
                 raise ValueError(f"solution_weights_superset must contain non-negative weights of type {weight_type}, not {given_weight}")
         # Work on a copy: the model adds its own entries, and the caller's dict must not be modified
